@@ -973,7 +973,7 @@ func TestVerifC12(t *testing.T) {
 	agg := &c12Agg{viol: map[string]*c12Viol{}, distinct: map[uint64]struct{}{}, counters: map[string]int64{}}
 	spaces := []c12Space{
 		{Name: "uniform", MaxEntries: 4, MaxGaps: 2},
-		{Name: "stamped", MaxEntries: 2, MaxGaps: 2, Stamps: true},
+		{Name: "stamped", MaxEntries: 2, MaxGaps: 1, Stamps: true},
 	}
 	q2Ops, q2Rounds := 3, 2
 	if thorough {
